@@ -90,6 +90,9 @@ def checkOne (acc : Acc) (kind : String) (ty : Target) (what : String) (claim : 
 
 def handle (j : Json) : Except String Verdict := do
   if let some s := getOpt j "skip" then
+    -- the crate's own `to_marrow` unwinding while the harness builds the column is a C16 failure, not a skipped case
+    if (s.compress.splitOn "to_marrow panicked").length > 1 then
+      return { agree := false, spec := [("C02", "na"), ("C16", "fail")], sig := "read/C16/to_marrow-panicked", tags := ["skip"], why := s.compress }
     return { agree := true, spec := [("C02", "na")], tags := ["trivial", "skip"], why := s.compress }
   let fm ← fmetaOfJson (← getObj j "fm")
   let col ← arrOfJson (← getObj j "view")
